@@ -1587,9 +1587,14 @@ open AioMySensors
 CODEC_GLUE = """/-! glue (constant text): `MessageSchema.load` = marshmallow's `Schema.load` around the generated validators -/
 
 def loadGen (v : Ver) (line : Str) : Except PyExn (Option Msg) :=
-  LC.schemaLoad (validate_child_id v) (CommandField_validate_command v) (to_dict line)"""
+  LC.schemaLoad (validate_child_id v) (CommandField_validate_command v) (to_dict line)
 
-CODEC_ORDER = ["validate_command", "validate_message_type", "validate_child_id", "CommandField_validate_command", "to_dict"]
+/-- `MessageSchema.dump(message)`: marshmallow serialises the six attributes (the numeric ones stay ints, which
+`to_string` prints with `str`), then `to_string` joins them.  No validator runs on dump. -/
+def dumpGen (m : Msg) : LC.CM Str :=
+  to_string (LC.dumpData m)"""
+
+CODEC_ORDER = ["validate_command", "validate_message_type", "validate_child_id", "CommandField_validate_command", "to_dict", "to_string"]
 
 
 def translate_codec(repo: str):
@@ -1644,6 +1649,28 @@ def translate_codec(repo: str):
                 "  LC.zipDict Gen.messageFields (splitN Gen.delimiter (Gen.messageFields.length - 1) (rstrip in_data))")
 
     attempt("to_dict", to_dict)
+
+    def to_string():
+        fn = mod.MessageSchema.__dict__["to_string"]
+        fn = getattr(fn, "__wrapped__", fn)
+        stmts = strip(fn_ast(fn).body)
+        got = [ast.unparse(x) for x in stmts]
+        expected_src = ('try:\n'
+                        '    string = f"{DELIMITER.join([str(data[field]) for field in self.fields])}\\n"\n'
+                        'except KeyError as err:\n'
+                        '    raise ValidationError("Not a valid Message instance") from err\n'
+                        'return string\n')
+        want = [ast.unparse(x) for x in ast.parse(expected_src).body]
+        if got != want:
+            raise Untranslatable("to_string is not the delimiter-join of str(data[field]) over the fields plus a newline, with KeyError -> "
+                                 "ValidationError: " + " / ".join(got)[:200])
+        if mod.DELIMITER != ";":
+            raise Untranslatable("DELIMITER changed")
+        return ("def to_string (data : LC.Data) : LC.CM Str :=\n"
+                "  LC.bind (LC.catchV (LC.mapFields data Gen.messageFields) [.KeyError]) fun texts =>\n"
+                "  .ok (joinWith Gen.delimiter texts ++ [Char.ofNat 10])")
+
+    attempt("to_string", to_string)
     # the two custom fields must still hand over to the translated validators
     try:
         a = ast.unparse(fn_ast(mod.ChildIdField.__dict__["_deserialize"]).body[-1])
